@@ -176,7 +176,7 @@ _SAFE_BUILTINS = {
     'sum': sum, 'all': all, 'any': any, 'abs': abs, 'map': map, 'filter': filter,
     'isinstance': isinstance, 'iter': iter, 'next': next, 'divmod': divmod, 'pow': pow,
     'True': True, 'False': False, 'None': None, 'print': lambda *a, **k: None,
-    'bin': bin, 'chr': chr, 'ord': ord, 'round': round, 'float': float,
+    'bin': bin, 'chr': chr, 'ord': ord, 'round': round, 'float': float, 'bytes': bytes, 'bytearray': bytearray,
     'ValueError': ValueError, 'TypeError': TypeError, 'KeyError': KeyError,
     'NotImplementedError': NotImplementedError, 'AssertionError': AssertionError,
     'IndexError': IndexError,
@@ -725,8 +725,10 @@ class Interp:
             if attr in obj._d:
                 return obj._d[attr]
             return self._class_attr(mod, node, obj, obj._cls, attr)
+        if obj in (int, str, bytes, dict, list, tuple, set, bytearray, float):
+            return getattr(obj, attr)
         if isinstance(obj, (Host, EnumMember)) or isinstance(
-            obj, (list, tuple, dict, str, set, frozenset, int, bool, range, bytes)
+            obj, (list, tuple, dict, str, set, frozenset, int, bool, range, bytes, bytearray)
         ):
             try:
                 return getattr(obj, attr)
